@@ -29,6 +29,11 @@ TEMPLATES = {
 }
 
 
+COLLIDING = V3 + "".join(f"struct {n} {{ code @3: u16, other @1: i5, }}\n" for n in
+                         ("MetaData", "Type", "StructField", "Struct", "Enumeration", "Enum", "DictField", "SignalBlock",
+                          "Impl", "Method", "Service", "Fcp"))
+
+
 class Patcher:
     """Replaces the leaves of a parsed tree by symbolic (or, for replay, concrete) values."""
 
@@ -203,6 +208,9 @@ def c12_case(args):
     known = Known("C12")
     rfcp, rsch = _refl()
     T = ("struct", "Fcp")
+    # history: an application schema whose struct names collide with those of the reflection schema was used first
+    from ..prime import prime
+    prime(COLLIDING, ("serde", "layout"))
     fcp = parse(TEMPLATES[tname])
     P = Patcher(strlen=strlen)
     P.patch(fcp)
@@ -211,10 +219,11 @@ def c12_case(args):
     eng = Engine(timeout_ms=60000 if tier == "quick" else 300000, max_paths=2000)
 
     def body():
-        rec = fcp.reflection()
+        first = fcp.reflection()
+        rec = fcp.reflection()        # asking again must give the same description (no state kept on the tree)
         enc = serde.encode(rfcp, "Fcp", rec)
         dec = serde.decode(rfcp, "Fcp", enc)
-        return rec, dec
+        return (first, rec), dec
 
     def env():
         ints = {k: v.e for k, v in P.vars.items() if type(v) is SymInt}
@@ -234,10 +243,10 @@ def c12_case(args):
                        features=feats, env=env(), make_replay=mk,
                        what=f"reflection/serialisation raised {type(out).__name__}: {str(out)[:120]} on {tname}")
                 continue
-            rec, dec = out
+            (first, rec), dec = out
             try:
                 exp = reference_record(fcp)
-                faithful = refspec.eq_value(rsch, T, rec, exp)
+                faithful = z3.And(refspec.eq_value(rsch, T, first, exp), refspec.eq_value(rsch, T, rec, exp))
             except Exception as e:
                 faithful = z3.BoolVal(False)
             decide(eng, pc, z3.Not(faithful), prop="C12", ob_id=ob + "|faithful", res=res, known=known, features=feats,
